@@ -42,6 +42,9 @@ type Msg struct {
 	Init     string `json:"init,omitempty"`  // initialize params variant: ok:<version> | null | absent | wrongtype | array
 	Level    string `json:"level,omitempty"` // logging/setLevel
 	CancelID int    `json:"cancel_id,omitempty"`
+	// Batched: while the session may still speak a protocol version that has JSON-RPC batches (no initialize
+	// accepted yet, or one that negotiated a version before 2025-06-18), the message travels as a batch of one.
+	Batched bool `json:"batched,omitempty"`
 }
 
 type Script struct {
@@ -81,6 +84,7 @@ func genScript(rt *rapid.T) Script {
 		case "notifications/cancelled":
 			m.CancelID = rapid.IntRange(1, 25).Draw(rt, "cid")
 		}
+		m.Batched = rapid.IntRange(0, 5).Draw(rt, "batched") == 0
 		s.Msgs = append(s.Msgs, m)
 	}
 	s.Spell = rapid.SampledFrom([]int{0, 0, 0, 1, 2, 3, 4, 5}).Draw(rt, "spell")
@@ -257,6 +261,8 @@ func runInBubble(s Script) (res vt.Result) {
 		phase = s.Restored
 	}
 	mixed := false // a modern request has been served on this session: legacy gating no longer asserted
+	// batchesOK: the version in force on this connection has JSON-RPC batches (none negotiated yet, or one before 2025-06-18)
+	batchesOK := s.Restored == ""
 	modelLevel := ""
 	var desc strings.Builder
 	ntPre, ntFailedInit, sawMeta, sawLegacy := false, false, false, false
@@ -289,6 +295,10 @@ func runInBubble(s Script) (res vt.Result) {
 		ipBefore := ss.InitializeParams()
 
 		line := memio.Respell(m.wire(i), s.Spell)
+		if m.Batched && batchesOK && !mixed {
+			line = "[" + line + "]"
+			res.Class("message_sent_as_a_batch_of_one_" + phase)
+		}
 		if m.MetaKey != "" {
 			m.Meta = "" // judged as what it is: a message without metadata (and one unknown member)
 			res.Class("metadata_under_a_differently_cased_member_name")
@@ -306,7 +316,18 @@ func runInBubble(s Script) (res vt.Result) {
 		var resp *response
 		for _, raw := range recv[seenResp:] {
 			var r response
-			json.Unmarshal(raw, &r)
+			if t := strings.TrimSpace(string(raw)); strings.HasPrefix(t, "[") {
+				// the answer to a batch is a batch
+				var rs []response
+				json.Unmarshal(raw, &rs)
+				if len(rs) != 1 {
+					res.Failf("msg %d: a batch of one was answered with %s", i, raw)
+					continue
+				}
+				r = rs[0]
+			} else {
+				json.Unmarshal(raw, &r)
+			}
 			if r.Method != "" {
 				continue // server->client notification (e.g. log message)
 			}
@@ -465,6 +486,7 @@ func runInBubble(s Script) (res vt.Result) {
 					res.Failf("msg %d: initialize accepted but InitializeParams() is nil", i)
 				}
 				phase = "accepted"
+				batchesOK = r.ProtocolVersion < "2025-06-18" && strings.TrimPrefix(m.Init, "ok:") == r.ProtocolVersion
 			case phase == "fresh":
 				if !isErr {
 					res.Failf("msg %d: initialize with %s params was accepted", i, m.Init)
